@@ -186,15 +186,15 @@ def run(tier, t0):
     res = harness.Result(PID)
     prog = program()
     fns, derived = totality.in_scope_fns(prog, ['breakpad_symbols'], lambda f: '/sym_file/' in f.file and not f.file.endswith('walker.rs'))
-    nontrivial = totality.run_panics(res, prog, fns, 'C09.1', floor_sites=80)
+    nontrivial = totality.run_panics(res, prog, fns, 'C09.1', floor_sites=60)
     if tier == 'thorough':
         totality.clippy_crosscheck(res, prog, fns, 'C09.1')
         # cfg-gated twin: breakpad-symbols without the `http` feature
         prog2 = program('symbols-nohttp')
         fns2, _ = totality.in_scope_fns(prog2, ['breakpad_symbols'], lambda f: '/sym_file/' in f.file and not f.file.endswith('walker.rs'))
         totality.run_panics(res, prog2, fns2, 'C09.1' + '/nohttp', floor_sites=50)
-    totality.run_loops(res, prog, fns, 'C09.2L', floor_l3=5)
-    totality.run_allocs(res, prog, fns, 'C09.3A', floor=5)
+    totality.run_loops(res, prog, fns, 'C09.2L', floor_l3=3)
+    totality.run_allocs(res, prog, fns, 'C09.3A', floor=3)
     window_rules(res, prog)
     digits_rule(res, prog)
     finish_item_rule(res, prog)
